@@ -49,6 +49,7 @@ SPEC = {
         'dense_cert', 'dense_selects_exact', 'dense_selects_valid', 'dense_selects_out_of_range', 'alias_cert', 'vose_selects',
         'sparseFixed_selects', 'sparseFixed_selects_valid', 'selects_unique', 'selects_prob_unique',
         'sampleSR_selects', 'sampleSR_reward', 'sampleSOR_obs_selects', 'sampleSOR_state', 'not_selects_current_vose', 'selects_current_vose_half',
+        'sparse_current_selects_exact', 'sparse_current_not_total_selects', 'projectFixed_idempotent',
         # robustness against rounding of the subtraction (|sub a b - (a-b)| <= eps): breakpoints move by <= k*eps; agreement away from breakpoints
         'denseA_round_bounds', 'denseA_round_agrees', 'spacingsA_round', 'makeRandomProbabilityA_round',
     ]],
